@@ -7,7 +7,7 @@
                WHITESPACE).
     Executable definitions only. *)
 From Coq Require Import String Ascii.
-From FA Require Import model.Base model.Json model.Parse.
+From FA Require Import model.Base model.Json model.Parse model.SchemaSpec.
 Open Scope string_scope.
 
 (** what an f-string prints for a value *)
@@ -79,33 +79,6 @@ Definition canon_m : json -> cmode -> string :=
 Definition canon (p : json) : string := canon_m p CSchema.
 
 (** ---- the specification ---- *)
-(* a dotted name wins; else the explicit namespace; else the enclosing one *)
-Definition spec_space (ns : string) (kv : list (string * json)) : string :=
-  match jget "namespace" kv with
-  | Some (JStr s) => s
-  | Some _ => ""            (* null: the null namespace *)
-  | None => ns
-  end.
-
-Definition spec_name (kv : list (string * json)) : string :=
-  match jget "name" kv with Some (JStr n) => n | _ => "" end.
-
-Definition spec_fullname (ns : string) (kv : list (string * json)) : string :=
-  let n := spec_name kv in
-  if has_dot n then n
-  else let sp := spec_space ns kv in
-       if String.eqb sp "" then n else sp ++ "." ++ n.
-
-(* the namespace in which the fields of a record are read *)
-Definition spec_namespace (ns : string) (kv : list (string * json)) : string :=
-  let n := spec_name kv in
-  if has_dot n then before_last_dot n else spec_space ns kv.
-
-(* a reference: a dotted name is a full name, otherwise it lives in the enclosing namespace *)
-Definition spec_ref (ns s : string) : string :=
-  if has_dot s then s else if String.eqb ns "" then s else ns ++ "." ++ s.
-
-Inductive pmode := PSchema | PFields | PField.
 
 Definition psub (k : string) (rs : list (string * (pmode -> string -> json))) (m : pmode) (ns : string) : json :=
   match jget k rs with Some r => r m ns | None => JNull end.
@@ -124,7 +97,7 @@ Definition pcf_obj (kv : list (string * json)) (rs : list (string * (pmode -> st
   | _ =>
       match jget "type" kv with
       | Some (JStr t) =>
-          if is_prim t then JStr t
+          if spec_is_prim t then JStr t
           else if String.eqb t "array" then
             JObj [("type", JStr "array"); ("items", psub "items" rs PSchema ns)]
           else if String.eqb t "map" then
@@ -139,15 +112,15 @@ Definition pcf_obj (kv : list (string * json)) (rs : list (string * (pmode -> st
                              | Some r => r PFields (spec_namespace ns kv)
                              | None => JArr []
                              end)]
-          else JObj kv
-      | _ => JObj kv
+          else JNull          (* not a schema *)
+      | _ => JNull
       end
   end.
 
 Definition pcf_m : json -> pmode -> string -> json :=
   jfold
     (fun j _ ns => match j with
-                   | JStr s => if is_prim s then JStr s else JStr (spec_ref ns s)
+                   | JStr s => if spec_is_prim s then JStr s else JStr (spec_ref ns s)
                    | _ => j
                    end)
     (fun _ rs m ns => match m with
@@ -180,3 +153,67 @@ Definition show_canon (j : json) : string :=
 Definition show_pcf (j : json) : string := hexs (pcf j).
 
 Definition show_bool (b : bool) : string := if b then "true" else "false".
+
+Definition show_valid (j : json) : string := show_bool (valid_raw j).
+Definition show_pyfloat (s : string) : string := show_bool (pyfloat_str s).
+
+(** ---- the syntactic class for which [C13_spec] is stated ----
+    At every schema position the parser traverses: record fields carry a
+    string "name" and a fixed "size" is an integer (otherwise Python's str()
+    and JSON printing differ: True vs true); at the top level (through
+    top-level unions) the schema is raw, i.e. does not carry the
+    "__fastavro_parsed" marker.  Every schema of the generator is in the class
+    (checked on every case by the harness). *)
+Definition bsub (k : string) (rs : list (string * (pmode -> bool))) (m : pmode) : bool :=
+  match jget k rs with Some r => r m | None => true end.
+
+Definition simple_m : json -> pmode -> bool :=
+  jfold
+    (fun _ _ => true)
+    (fun _ rs m => forallb (fun r => r (match m with PFields => PField | _ => PSchema end)) rs)
+    (fun kv rs m =>
+       match m with
+       | PField => match jget "name" kv with Some (JStr _) => true | _ => false end && bsub "type" rs PSchema
+       | _ =>
+           if type_is kv "array" then bsub "items" rs PSchema
+           else if type_is kv "map" then bsub "values" rs PSchema
+           else if type_is kv "fixed" then match jget "size" kv with Some (JInt _) => true | _ => false end
+           else if type_is kv "record" || type_is kv "error" then bsub "fields" rs PFields
+           else true
+       end).
+
+Definition unmarked : json -> bool :=
+  jfold (fun _ => true) (fun _ rs => forallb (fun b => b) rs) (fun kv _ => negb (jhas "__fastavro_parsed" kv)).
+
+Definition simple_raw (j : json) : bool := simple_m j PSchema && unmarked j.
+Definition show_simple (j : json) : string := show_bool (simple_raw j).
+
+(** to_parsing_canonical_form(schema) = print the parsed schema *)
+Definition to_canonical (j : json) : pres string :=
+  let+ r := parse_auto j in POk (canon (fst r)).
+
+(** The class in which re-reading the canonical form is the identity: every
+    named type met inside a non-null namespace has a dotted full name (the
+    canonical form drops "namespace", so a null-namespace type nested in a
+    namespaced record would be re-read into that namespace). *)
+Definition csub (k : string) (rs : list (string * (pmode -> string -> bool))) (m : pmode) (ns : string) : bool :=
+  match jget k rs with Some r => r m ns | None => true end.
+
+Definition ns_closed_m : json -> pmode -> string -> bool :=
+  jfold
+    (fun _ _ _ => true)
+    (fun _ rs m ns => forallb (fun r => r (match m with PFields => PField | _ => PSchema end) ns) rs)
+    (fun kv rs m ns =>
+       match m with
+       | PField => csub "type" rs PSchema ns
+       | _ =>
+           if type_is kv "array" then csub "items" rs PSchema ns
+           else if type_is kv "map" then csub "values" rs PSchema ns
+           else if type_is kv "enum" || type_is kv "fixed" then has_dot (spec_fullname ns kv) || String.eqb ns ""
+           else if type_is kv "record" || type_is kv "error" then
+             (has_dot (spec_fullname ns kv) || String.eqb ns "") && csub "fields" rs PFields (spec_namespace ns kv)
+           else true
+       end).
+Definition ns_closed (j : json) : bool := ns_closed_m j PSchema "".
+Definition show_closed (j : json) : string := show_bool (ns_closed j).
+Definition show_valid_strict (j : json) : string := show_bool (valid_strict j).
